@@ -47,6 +47,22 @@ def main(argv=None):
                     ev['coverage'].update(ev2); ev['violations'] = 1 if code == 1 else 0
             except Exception as y:
                 print("native fallback failed: %s" % y)
+            fw = getattr(x, 'frame_write', None)
+            if code != 1 and fw is not None:
+                try: sens = getattr(importlib.import_module('pvc.props.' + prop.lower()), 'FRAME_SENSITIVE', False)
+                except Exception: sens = False
+                if sens:
+                    # the engine stopped at a heap write it cannot follow (inside a loop over a list of symbolic length), but the write
+                    # itself is certain: for a property about several calls / histories that is a failed frame obligation
+                    from . import replay as RP
+                    r = dict(name='frame.no-write-to-state-that-outlives-a-call', prop=prop, status='refuted', backend='ownership analysis',
+                             detail="certain heap write found while executing the real code symbolically: %s (%s)" % (fw, str(x)[:300]),
+                             meta=dict(kind='frame', function=None, statement="no explored path writes to its arguments, to self or to module-level state", writes=fw))
+                    class _S: repo = os.environ.get('PVC_REPO', '/repo')
+                    cxs = type('X', (), dict(seed=seed, tier=a.tier))()
+                    path = RP.write_replays(prop, [r], _S(), cxs)[0]
+                    print("VIOLATION property=%s replay=%s obligation=%s%s" % (prop, path, r['name'], "" if r.get('replayed') else " no-failing-input-found"))
+                    code = 1; ev['violations'] = 1
     ev['wall_s'] = round(time.time() - t0, 2)
     os.makedirs(os.path.dirname(evidence_path), exist_ok=True)
     with open(evidence_path, 'w') as f: json.dump(ev, f, indent=1, default=str)
@@ -267,6 +283,14 @@ def match_known(r, kf, byname):
     for k in kf:
         if not any(fnmatch.fnmatch(r['name'], pat) for pat in k['obligations']): continue
         fps = [x for n, x in byname.items() if x.get('meta', {}).get('kind') == 'fingerprint' and x['meta'].get('finding') == k['id']]
+        # fingerprints that belong to the same configuration as r (same dotted prefix before `.fingerprint.`) decide for r; only if
+        # there is none do all fingerprints of the finding decide
+        rt = r['name'].split('.')
+        def scope(x):
+            t = x['name'].split('.'); t = t[:t.index('fingerprint')] if 'fingerprint' in t else t
+            return rt[:len(t)] == t
+        scoped = [x for x in fps if scope(x)]
+        if scoped: fps = scoped
         if fps and all(x['status'] == 'discharged' for x in fps): return k
         if fps and not any(x['status'] == 'refuted' for x in fps): return 'undecided'
     return None
